@@ -2,3 +2,4 @@ import Driver.Codec
 import Driver.Query
 import Driver.Mutate
 import Driver.Builder
+import Driver.Graph
